@@ -93,5 +93,14 @@ func (u *URL) UnmarshalJSON(b []byte) (err error) {
 		}
 	}
 
-	return u.UnmarshalText(b[1 : l-1])
+	// Decode the JSON string properly instead of just removing the quotes, since
+	// the text may contain escape sequences, e.g. "\u0026" that encoding/json
+	// writes instead of an ampersand.
+	var s string
+	err = json.Unmarshal(b, &s)
+	if err != nil {
+		return err
+	}
+
+	return u.UnmarshalText([]byte(s))
 }
